@@ -463,7 +463,9 @@ theorem updateUserEnergy_totalRewards {g g1 : Weekly.St} {W : Nat} {cur : Energy
 /-- what a successful `claimBoostedYields` does to the boosted sub-state, field by field -/
 structure BoostEff (s s' : St) (r : Nat) : Prop where
   struct : ∃ w' b', s' = { s with w := w', b := b' }
-  noCfg : s.b.cfg = none → r = 0 ∧ s' = s
+  /-- no config (repaired `None` branch, F6): nothing is paid and the boosted sub-state is untouched;
+      the weekly sub-state is the one of `updateEnergyAndProgress` (`claimBoostedYields_none_spec`) -/
+  noCfg : s.b.cfg = none → r = 0 ∧ s'.b = s.b
   cfg : s'.b.cfg = s.b.cfg ∨ ∃ cfg W mem, s.b.cfg = some cfg ∧ s.week = some W ∧
     cfg.update W none = some mem ∧ s'.b.cfg = some mem
   cutW : s'.b.cutW = s.b.cutW
@@ -482,15 +484,29 @@ structure BoostEff (s s' : St) (r : Nat) : Prop where
 theorem claimBoostedYields_spec {s s' : St} {u r : Nat} (h : claimBoostedYields s u = some (s', r)) :
     BoostEff s s' r := by
   have hstruct := claimBoostedYields_struct h
+  have h0 := h
   unfold claimBoostedYields at h
   split at h
   · rename_i hc
-    simp only [Option.some.injEq, Prod.mk.injEq] at h
-    obtain ⟨rfl, rfl⟩ := h
+    clear h
+    obtain ⟨rfl, hu⟩ := claimBoostedYields_none_spec hc h0
+    simp only [updateEnergyAndProgress, Option.bind_eq_bind, Option.bind_eq_some_iff, Option.pure_def,
+      Option.some.injEq] at hu
+    obtain ⟨W, hW, g, hg, rfl⟩ := hu
     refine ⟨hstruct, fun _ => ⟨rfl, rfl⟩, Or.inl rfl, rfl, rfl, rfl, fun _ => Nat.le_refl _,
       fun _ _ _ _ => ⟨rfl, rfl, rfl⟩,
-      fun _ _ => (sum_map_zero (fun _ _ => Nat.sub_self _)).symm, fun _ => PoolRel.refl _,
-      fun _ _ _ _ hh => hh⟩
+      fun _ _ => (sum_map_zero (fun _ _ => Nat.sub_self _)).symm, fun _ => PoolRel.refl _, ?_⟩
+    intro W' w hW' hw5 hok
+    rw [hW] at hW'; simp only [Option.some.injEq] at hW'; subst hW'
+    simp only [Weekly.updateEnergyAndProgress, Option.bind_eq_bind, Option.bind_eq_some_iff,
+      Option.pure_def, Option.some.injEq] at hg
+    obtain ⟨g1, h1, rfl⟩ := hg
+    unfold RemOk at hok ⊢
+    have e : (Weekly.setProgress g1 u (if 0 < (Energy.queried (s.energy u) s.epoch).getEnergyAmount
+        then some ⟨Energy.queried (s.energy u) s.epoch, W⟩ else none)).totalRewards w
+        = s.w.totalRewards w := updateUserEnergy_totalRewards h1 w hw5
+    simp only [e]
+    exact hok
   · rename_i cfg hc
     simp only [Option.bind_eq_bind, Option.bind_eq_some_iff, Option.pure_def, Option.some.injEq,
       Prod.mk.injEq] at h
@@ -601,13 +617,32 @@ theorem claimMulti_twice {σ : Type} {rw rw' : Weekly.RewardFn σ} (hrw : Weekly
     (h2 : Weekly.claimMulti rw' g2 c2 u W cur' = some (g3, c3, r2)) : r2 = [] ∧ c3 = c2 :=
   claimMulti_same_week h2 (fun p hp => claimMulti_progress_week hrw h1 p (hg ▸ hp))
 
-/-- after a boosted claim (with a config) the user's progress, if any, is at the current week -/
-theorem claimBoostedYields_progress {s s' : St} {u r : Nat}
-    (h : claimBoostedYields s u = some (s', r)) (hc : s.b.cfg ≠ none) :
+/-- after `update_energy_and_progress(u)` the user's progress, if any, is at the current week -/
+theorem updateEnergyAndProgress_progress {s s' : St} {u : Nat}
+    (h : updateEnergyAndProgress s u = some s') :
     ∃ W, s.week = some W ∧ ∀ p, s'.w.progress u = some p → p.week = W := by
+  simp only [updateEnergyAndProgress, Option.bind_eq_bind, Option.bind_eq_some_iff, Option.pure_def,
+    Option.some.injEq] at h
+  obtain ⟨W, hW, g, hg, rfl⟩ := h
+  simp only [Weekly.updateEnergyAndProgress, Option.bind_eq_bind, Option.bind_eq_some_iff,
+    Option.pure_def, Option.some.injEq] at hg
+  obtain ⟨g1, _, rfl⟩ := hg
+  refine ⟨W, hW, fun p hp => ?_⟩
+  simp only [Weekly.setProgress, Weekly.upd_same] at hp
+  split at hp
+  · simp only [Option.some.injEq] at hp; subst hp; rfl
+  · simp at hp
+
+/-- after a boosted claim — with or without a boosted-yields config (the repaired `None` branch runs
+    `update_energy_and_progress`, F6) — the user's progress, if any, is at the current week -/
+theorem claimBoostedYields_progress {s s' : St} {u r : Nat}
+    (h : claimBoostedYields s u = some (s', r)) :
+    ∃ W, s.week = some W ∧ ∀ p, s'.w.progress u = some p → p.week = W := by
+  have h0 := h
   unfold claimBoostedYields at h
   split at h
-  · rename_i hn; exact absurd hn hc
+  · rename_i hn
+    exact updateEnergyAndProgress_progress (claimBoostedYields_none_spec hn h0).2
   · simp only [Option.bind_eq_bind, Option.bind_eq_some_iff, Option.pure_def, Option.some.injEq,
       Prod.mk.injEq] at h
     obtain ⟨W, hW, mem, _, ⟨g', c', rl⟩, hx, hs', _⟩ := h
@@ -621,11 +656,13 @@ theorem claimBoostedYields_progress {s s' : St} {u r : Nat}
 theorem claimBoostedYields_same_week {s s' : St} {u r W : Nat}
     (h : claimBoostedYields s u = some (s', r)) (hW : s.week = some W)
     (hp : ∀ p, s.w.progress u = some p → p.week = W) : r = 0 ∧ s'.b = s.b := by
+  have h0 := h
   unfold claimBoostedYields at h
   split at h
-  · simp only [Option.some.injEq, Prod.mk.injEq] at h
-    obtain ⟨rfl, rfl⟩ := h
-    exact ⟨rfl, rfl⟩
+  · rename_i hc
+    obtain ⟨hr, hu⟩ := claimBoostedYields_none_spec hc h0
+    obtain ⟨g, rfl⟩ := updateEnergyAndProgress_spec hu
+    exact ⟨hr, rfl⟩
   · simp only [Option.bind_eq_bind, Option.bind_eq_some_iff, Option.pure_def, Option.some.injEq,
       Prod.mk.injEq] at h
     obtain ⟨W', hW', mem, _, ⟨g', c', rl⟩, hx, hs', rfl⟩ := h
@@ -635,14 +672,14 @@ theorem claimBoostedYields_same_week {s s' : St} {u r W : Nat}
     rw [← hs']
     exact hc'
 
-/-- 6. **paid once** (C11): after a successful boosted claim of `u` (config present), any later
-    boosted claim of `u` in the same week — in any state `s2` that still has `u`'s progress entry
-    as the first claim left it — pays nothing and leaves the boosted sub-state alone -/
+/-- 6. **paid once** (C11): after a successful boosted claim of `u` (with or without a config), any
+    later boosted claim of `u` in the same week — in any state `s2` that still has `u`'s progress
+    entry as the first claim left it — pays nothing and leaves the boosted sub-state alone -/
 theorem paid_once {s s1 s2 s3 : St} {u r1 r2 : Nat}
-    (h1 : claimBoostedYields s u = some (s1, r1)) (hc : s.b.cfg ≠ none)
+    (h1 : claimBoostedYields s u = some (s1, r1))
     (hprog : s2.w.progress u = s1.w.progress u) (hweek : s2.week = s.week)
     (h2 : claimBoostedYields s2 u = some (s3, r2)) : r2 = 0 ∧ s3.b = s2.b := by
-  obtain ⟨W, hW, hp⟩ := claimBoostedYields_progress h1 hc
+  obtain ⟨W, hW, hp⟩ := claimBoostedYields_progress h1
   exact claimBoostedYields_same_week h2 (hweek.trans hW) (fun p hq => hp p (hprog ▸ hq))
 
 /-- 7. the boosted claim reads the user's farm position only through `userTotal u` -/
@@ -651,7 +688,15 @@ theorem claimBoostedYields_userTotal (s : St) (u : Nat) (t : Nat → Nat) (ht : 
       (claimBoostedYields s u).map (fun r => ({ r.1 with userTotal := t }, r.2)) := by
   unfold claimBoostedYields
   cases hc : s.b.cfg with
-  | none => simp only [Option.map_some]
+  | none =>
+    simp only [updateEnergyAndProgress, St.week]
+    cases Weekly.weekOf s.epoch s.firstWeekStart with
+    | none => rfl
+    | some W =>
+      simp only [Option.bind_eq_bind, Option.bind_some]
+      cases Weekly.updateEnergyAndProgress s.w u W (Energy.queried (s.energy u) s.epoch) with
+      | none => rfl
+      | some g => rfl
   | some cfg =>
     simp only [St.week, ht]
     cases Weekly.weekOf s.epoch s.firstWeekStart with
